@@ -296,6 +296,9 @@ def oracle_case(c, a, res_str):
                     e = centered(ph[t] - (want[t] << sh if sh >= 0 else 0), 1 << bits)
                     emax = max(emax, abs(e))
         det["key_emax_log2"] = round(math.log2(emax + 1) - bk * S, 2)
+        if emax / 2.0 ** (bk * S) > 20.0 * 2.0 ** (-c["kk"]):
+            det["why"] = "a tensor-key cell does not encrypt s_i*s_j at its gadget position (error beyond the sampler's bound)"
+            return False, det
         pt, bits_t = tensor_phase(A, sk, b, cols)
         pr, bits_r = glwe_phase(out, sk, bo)
         size_conv = ceil_div(len(A[0]) * b, bk)
